@@ -60,6 +60,8 @@ class Transport(object):
         self.noise = self.stack.getLayer(2)
         self.profile = profile
         self.server = None
+        self.net = None
+        self.net_stack = None
 
     def attach(self, server):
         self.server = server
@@ -76,7 +78,30 @@ class Transport(object):
         self.stack.emitEvent(YowLayerEvent(YowNetworkLayer.EVENT_STATE_DISCONNECTED, reason="test"))
 
     def deliver(self, data):
-        self.wire.receive(data)
+        """Hand bytes to the harness's network thread (the only thread that calls into the stack from below)."""
+        if self.net is None:
+            self.net = NetThread(self.wire)
+            self.net.start()
+        self.net.put(data)
+
+    def net_sync(self, timeout=20.0):
+        """Wait until the network thread has delivered everything. Returns 'ok', 'raised', 'blocked' or 'timeout'."""
+        if self.net is None:
+            return "ok"
+        t0 = time.time()
+        while True:
+            if self.net.idle():
+                return "raised" if self.net.errors else "ok"
+            if time.time() - t0 > timeout:
+                st = probes.thread_states([self.net])
+                frames = st.get(self.net.name, [])
+                self.net_stack = frames[:8]
+                return "blocked" if probes.parked_forever(frames) or probes.blocked_on_lock(frames) else "timeout"
+            time.sleep(0.0003)
+
+    def close(self):
+        if self.net is not None:
+            self.net.stop()
 
     def worker_threads(self):
         return [t for t in threading.enumerate() if t.__class__.__name__ == "WANoiseProtocolHandshakeWorker"]
@@ -96,6 +121,50 @@ class Transport(object):
         st = probes.thread_states()
         ws = [n for n in st if n.startswith("Thread-") or "Handshake" in n]
         return ws and all(probes.parked_forever(st[n]) for n in ws)
+
+
+class NetThread(threading.Thread):
+    def __init__(self, wire):
+        super(NetThread, self).__init__(name="verif-net-%d" % id(wire))
+        self.daemon = True
+        self.wire = wire
+        self.q = []
+        self.cv = threading.Condition()
+        self.busy = False
+        self.errors = []
+        self.stopped = False
+
+    def put(self, data):
+        with self.cv:
+            self.q.append(data)
+            self.cv.notify()
+
+    def idle(self):
+        with self.cv:
+            return not self.q and not self.busy
+
+    def stop(self):
+        with self.cv:
+            self.stopped = True
+            self.cv.notify()
+
+    def run(self):
+        while True:
+            with self.cv:
+                while not self.q and not self.stopped:
+                    self.cv.wait(0.5)
+                if self.stopped and not self.q:
+                    return
+                data = self.q.pop(0)
+                self.busy = True
+            try:
+                self.wire.receive(data)
+            except Exception as e:  # noqa
+                import traceback
+                self.errors.append((type(e).__name__, str(e), [fs.name for fs in traceback.extract_tb(e.__traceback__) if "/yowsup/" in fs.filename or "consonance" in fs.filename][-3:]))
+            finally:
+                with self.cv:
+                    self.busy = False
 
 
 def decode_frames(payloads):
